@@ -43,7 +43,7 @@ try:
             row["checks"][c] = {"rc": r.returncode, "signatures": sigs[:8]}
         results[sp["name"]] = row
         caught = [c for c, v in row["checks"].items() if v["rc"] == 1]
-        print("%-45s tests:%s  %s  %s" % (sp["name"], "pass" if tests_ok else "FAIL", "CAUGHT by " + ",".join(caught) if caught else "** SURVIVED **",
+        print("%-45s tests:%s  %s  %s" % (sp["name"], "pass" if tests_ok else "FAIL", "CAUGHT by " + ",".join(caught) if caught else ("** HARNESS ERROR (rc 2) **" if any(v["rc"] == 2 for v in row["checks"].values()) else "** SURVIVED **"),
                                           "; ".join(s for v in row["checks"].values() for s in v["signatures"][:3])[:150]))
         sys.stdout.flush()
 finally:
